@@ -70,3 +70,14 @@ def tlc_summary(name, res, exhaustive=True):
     return {"name": name, "states": res.states, "distinct": res.distinct, "depth": res.depth, "lines": res.lines,
             "wall": res.wall, "exhaustive": exhaustive, "violated": res.violated,
             "text": res.error_text[-3000:] if res.violated else ""}
+
+
+def add_viol(lst, item):
+    """keep one detailed example per distinct signature (so that violations absorbed by a
+    known finding can never crowd out a different violation)"""
+    import json as _json
+    key = _json.dumps(item[0], sort_keys=True, default=repr)
+    for sig, _d in lst:
+        if _json.dumps(sig, sort_keys=True, default=repr) == key:
+            return
+    lst.append(item)
